@@ -5,85 +5,85 @@ namespace SMD
 
 /-! ### what is stored has the type of the place -/
 
-theorem ofGeneric_hasType (val : Value) : ∀ (t : GoType) (g : GoVal), ofGeneric val = some (t, g) →
-    GoVal.hasType t g = true := by
+theorem ofGeneric_hasType (ub : Int) (val : Value) : ∀ (t : GoType) (g : GoVal), ofGeneric val = some (t, g) →
+    GoVal.hasTypeB ub t g = true := by
   refine ofGeneric.induct
-    (motive_1 := fun val => ∀ (t : GoType) (g : GoVal), ofGeneric val = some (t, g) → GoVal.hasType t g = true)
-    (motive_2 := fun m => GoVal.entriesHaveType .iface (ofGenericEntries m) = true)
-    (motive_3 := fun l => GoVal.allHaveType .iface (ofGenericList l) = true)
+    (motive_1 := fun val => ∀ (t : GoType) (g : GoVal), ofGeneric val = some (t, g) → GoVal.hasTypeB ub t g = true)
+    (motive_2 := fun m => GoVal.entriesHaveTypeB ub .iface (ofGenericEntries m) = true)
+    (motive_3 := fun l => GoVal.allHaveTypeB ub .iface (ofGenericList l) = true)
     ?_ ?_ ?_ ?_ ?_ ?_ ?_ ?_ ?_ ?_ ?_ val
   · intro t g h; simp [ofGeneric] at h
-  · intro b t g h; simp [ofGeneric] at h; obtain ⟨rfl, rfl⟩ := h; simp [GoVal.hasType]
-  · intro i t g h; simp [ofGeneric] at h; obtain ⟨rfl, rfl⟩ := h; simp [GoVal.hasType]
-  · intro u z t g h; simp [ofGeneric] at h; obtain ⟨rfl, rfl⟩ := h; simp [GoVal.hasType]
-  · intro s t g h; simp [ofGeneric] at h; obtain ⟨rfl, rfl⟩ := h; simp [GoVal.hasType]
-  · intro l ih t g h; simp [ofGeneric] at h; obtain ⟨rfl, rfl⟩ := h; simpa [GoVal.hasType] using ih
-  · intro m ih t g h; simp [ofGeneric] at h; obtain ⟨rfl, rfl⟩ := h; simpa [GoVal.hasType] using ih
-  · simp [ofGenericList, GoVal.allHaveType]
+  · intro b t g h; simp [ofGeneric] at h; obtain ⟨rfl, rfl⟩ := h; simp [GoVal.hasTypeB]
+  · intro i t g h; simp [ofGeneric] at h; obtain ⟨rfl, rfl⟩ := h; simp [GoVal.hasTypeB]
+  · intro u z t g h; simp [ofGeneric] at h; obtain ⟨rfl, rfl⟩ := h; simp [GoVal.hasTypeB]
+  · intro s t g h; simp [ofGeneric] at h; obtain ⟨rfl, rfl⟩ := h; simp [GoVal.hasTypeB]
+  · intro l ih t g h; simp [ofGeneric] at h; obtain ⟨rfl, rfl⟩ := h; simpa [GoVal.hasTypeB] using ih
+  · intro m ih t g h; simp [ofGeneric] at h; obtain ⟨rfl, rfl⟩ := h; simpa [GoVal.hasTypeB] using ih
+  · simp [ofGenericList, GoVal.allHaveTypeB]
   · intro x rest ihx ihr
-    simp only [ofGenericList, GoVal.allHaveType, Bool.and_eq_true]
+    simp only [ofGenericList, GoVal.allHaveTypeB, Bool.and_eq_true]
     refine ⟨?_, ihr⟩
     cases hx : ofGeneric x with
-    | none => simp [GoVal.hasType]
-    | some p => obtain ⟨t, g⟩ := p; simpa [GoVal.hasType] using ihx t g hx
-  · simp [ofGenericEntries, GoVal.entriesHaveType]
+    | none => simp [GoVal.hasTypeB]
+    | some p => obtain ⟨t, g⟩ := p; simpa [GoVal.hasTypeB] using ihx t g hx
+  · simp [ofGenericEntries, GoVal.entriesHaveTypeB]
   · intro k x rest ihx ihr
-    simp only [ofGenericEntries, GoVal.entriesHaveType, Bool.and_eq_true]
+    simp only [ofGenericEntries, GoVal.entriesHaveTypeB, Bool.and_eq_true]
     refine ⟨?_, ihr⟩
     cases hx : ofGeneric x with
-    | none => simp [GoVal.hasType]
-    | some p => obtain ⟨t, g⟩ := p; simpa [GoVal.hasType] using ihx t g hx
+    | none => simp [GoVal.hasTypeB]
+    | some p => obtain ⟨t, g⟩ := p; simpa [GoVal.hasTypeB] using ihx t g hx
 
-theorem storeAs_hasType (T : GoType) (val : Value) (nv : GoVal) (h : storeAs T val = some nv) :
-    GoVal.hasType T nv = true := by
+theorem storeAs_hasType (ub : Int) (hub : 0 < ub) (T : GoType) (val : Value) (nv : GoVal) (h : storeAs T val = some nv) :
+    GoVal.hasTypeB ub T nv = true := by
   unfold storeAs at h
   split at h
   · simp only [Option.some.injEq] at h
     subst h
-    exact zeroOf_hasType_all T
+    exact zeroOf_hasType_all ub hub T
   · rename_i t g hg
     split at h
     · simp only [Option.some.injEq] at h
       subst h
-      simpa [GoVal.hasType] using ofGeneric_hasType val t g hg
+      simpa [GoVal.hasTypeB] using ofGeneric_hasType ub val t g hg
     · split at h
       · rename_i hid
         simp only [Option.some.injEq] at h
         subst h
         rw [genericIdentical_eq _ _ hid]
-        exact ofGeneric_hasType val t g hg
+        exact ofGeneric_hasType ub val t g hg
       · cases h
 
 /-! ### fields -/
 
-theorem fieldsHaveType_cons (f : GoField) (fs : List GoField) (v : GoVal) (vs : List GoVal) :
-    GoVal.fieldsHaveType (f :: fs) (v :: vs) = (GoVal.hasType f.type v && GoVal.fieldsHaveType fs vs) := by
+theorem fieldsHaveType_cons (ub : Int) (f : GoField) (fs : List GoField) (v : GoVal) (vs : List GoVal) :
+    GoVal.fieldsHaveTypeB ub (f :: fs) (v :: vs) = (GoVal.hasTypeB ub f.type v && GoVal.fieldsHaveTypeB ub fs vs) := by
   obtain ⟨goName, tagName, dash, omitempty, inline, embedded, type⟩ := f
-  simp [GoVal.fieldsHaveType, GoField.type]
+  simp [GoVal.fieldsHaveTypeB, GoField.type]
 
-theorem field_typed : ∀ (fs : List GoField) (vals : List GoVal) (key : String),
-    GoVal.fieldsHaveType fs vals = true →
+theorem field_typed (ub : Int) : ∀ (fs : List GoField) (vals : List GoVal) (key : String),
+    GoVal.fieldsHaveTypeB ub fs vals = true →
     ∀ (o : Bool) (ft : GoType) (fv : GoVal) (viaPtr : Bool), getField fs vals key = .hit o ft fv viaPtr →
-      GoVal.hasType ft fv = true ∧
-      ∀ nv, GoVal.hasType ft nv = true → GoVal.fieldsHaveType fs (putField fs vals key nv) = true := by
+      GoVal.hasTypeB ub ft fv = true ∧
+      ∀ nv, GoVal.hasTypeB ub ft nv = true → GoVal.fieldsHaveTypeB ub fs (putField fs vals key nv) = true := by
   refine getField.induct
-    (motive_1 := fun fs vals key => GoVal.fieldsHaveType fs vals = true →
+    (motive_1 := fun fs vals key => GoVal.fieldsHaveTypeB ub fs vals = true →
       ∀ (o : Bool) (ft : GoType) (fv : GoVal) (viaPtr : Bool), getField fs vals key = .hit o ft fv viaPtr →
-        GoVal.hasType ft fv = true ∧
-        ∀ nv, GoVal.hasType ft nv = true → GoVal.fieldsHaveType fs (putField fs vals key nv) = true)
-    (motive_2 := fun type v key => GoVal.hasType type v = true →
+        GoVal.hasTypeB ub ft fv = true ∧
+        ∀ nv, GoVal.hasTypeB ub ft nv = true → GoVal.fieldsHaveTypeB ub fs (putField fs vals key nv) = true)
+    (motive_2 := fun type v key => GoVal.hasTypeB ub type v = true →
       ∀ (o : Bool) (ft : GoType) (fv : GoVal) (viaPtr : Bool), getInline type v key = .hit o ft fv viaPtr →
-        GoVal.hasType ft fv = true ∧
-        ∀ nv, GoVal.hasType ft nv = true → GoVal.hasType type (putInline type v key nv) = true)
+        GoVal.hasTypeB ub ft fv = true ∧
+        ∀ nv, GoVal.hasTypeB ub ft nv = true → GoVal.hasTypeB ub type (putInline type v key nv) = true)
     ?_ ?_ ?_ ?_ ?_ ?_ ?_ ?_ ?_ ?_ ?_
   · intro inner ivals key ih ht o ft fv viaPtr hg
     have h1 : getInline (.struct inner) (.struct ivals) key = getField inner ivals key := by simp [getInline]
     rw [h1] at hg
-    obtain ⟨h2, h3⟩ := ih (by simpa [GoVal.hasType] using ht) o ft fv viaPtr hg
+    obtain ⟨h2, h3⟩ := ih (by simpa [GoVal.hasTypeB] using ht) o ft fv viaPtr hg
     refine ⟨h2, fun nv hnv => ?_⟩
     have e : putInline (.struct inner) (.struct ivals) key nv = .struct (putField inner ivals key nv) := by
       simp [putInline]
-    rw [e]; simpa [GoVal.hasType] using h3 nv hnv
+    rw [e]; simpa [GoVal.hasTypeB] using h3 nv hnv
   · intro inner ivals key ih ht o ft fv viaPtr hg
     have h1 : getInline (.ptr (.struct inner)) (.ptr (.struct ivals)) key = (getField inner ivals key).markViaPtr := by
       simp [getInline]
@@ -94,11 +94,11 @@ theorem field_typed : ∀ (fs : List GoField) (vals : List GoVal) (key : String)
     | hit o2 ft2 fv2 vp2 =>
       simp only [hgf, FieldGet.markViaPtr, FieldGet.hit.injEq] at hg
       obtain ⟨rfl, rfl, rfl, _⟩ := hg
-      obtain ⟨h2, h3⟩ := ih (by simpa [GoVal.hasType] using ht) _ _ _ vp2 hgf
+      obtain ⟨h2, h3⟩ := ih (by simpa [GoVal.hasTypeB] using ht) _ _ _ vp2 hgf
       refine ⟨h2, fun nv hnv => ?_⟩
       have e : putInline (.ptr (.struct inner)) (.ptr (.struct ivals)) key nv = .ptr (.struct (putField inner ivals key nv)) := by
         simp [putInline]
-      rw [e]; simpa [GoVal.hasType] using h3 nv hnv
+      rw [e]; simpa [GoVal.hasTypeB] using h3 nv hnv
   · intro inner key hc _ o ft fv viaPtr hg
     simp only [getInline, hc, if_true] at hg
     cases hg
@@ -114,10 +114,10 @@ theorem field_typed : ∀ (fs : List GoField) (vals : List GoVal) (key : String)
     have h2 : ∀ nv, putField (.mk goName tagName dash omitempty inline embedded type :: fs) (v :: vs) key nv = v :: putField fs vs key nv := by
       intro nv; simp only [putField, hc, if_true]
     rw [h1] at hg
-    rw [fieldsHaveType_cons, Bool.and_eq_true] at ht
+    rw [fieldsHaveType_cons ub, Bool.and_eq_true] at ht
     obtain ⟨h3, h4⟩ := ih ht.2 o ft fv viaPtr hg
     refine ⟨h3, fun nv hnv => ?_⟩
-    rw [h2, fieldsHaveType_cons, Bool.and_eq_true]
+    rw [h2, fieldsHaveType_cons ub, Bool.and_eq_true]
     exact ⟨ht.1, h4 nv hnv⟩
   · intro goName tagName omitempty inline embedded type fs v vs key hc _ o ft fv viaPtr hg
     simp only [getField, hc, if_true] at hg
@@ -128,10 +128,10 @@ theorem field_typed : ∀ (fs : List GoField) (vals : List GoVal) (key : String)
     have h2 : ∀ nv, putField (.mk goName tagName dash omitempty true embedded type :: fs) (v :: vs) key nv = putInline type v key nv :: vs := by
       intro nv; simp only [putField, hc, hd, if_true]; rfl
     rw [h1] at hg
-    rw [fieldsHaveType_cons, Bool.and_eq_true] at ht
+    rw [fieldsHaveType_cons ub, Bool.and_eq_true] at ht
     obtain ⟨h3, h4⟩ := ih ht.1 o ft fv viaPtr hg
     refine ⟨h3, fun nv hnv => ?_⟩
-    rw [h2, fieldsHaveType_cons, Bool.and_eq_true]
+    rw [h2, fieldsHaveType_cons ub, Bool.and_eq_true]
     exact ⟨h4 nv hnv, ht.2⟩
   · intro goName tagName dash omitempty inline embedded type fs v vs key hc hd hi hname ht o ft fv viaPtr hg
     have h1 : getField (.mk goName tagName dash omitempty inline embedded type :: fs) (v :: vs) key = .hit omitempty type v false := by
@@ -141,9 +141,9 @@ theorem field_typed : ∀ (fs : List GoField) (vals : List GoVal) (key : String)
     rw [h1] at hg
     simp only [FieldGet.hit.injEq] at hg
     obtain ⟨rfl, rfl, rfl, _⟩ := hg
-    rw [fieldsHaveType_cons, Bool.and_eq_true] at ht
+    rw [fieldsHaveType_cons ub, Bool.and_eq_true] at ht
     refine ⟨ht.1, fun nv hnv => ?_⟩
-    rw [h2, fieldsHaveType_cons, Bool.and_eq_true]
+    rw [h2, fieldsHaveType_cons ub, Bool.and_eq_true]
     exact ⟨hnv, ht.2⟩
   · intro goName tagName dash omitempty inline embedded type fs v vs key hc hd hi hname _ o ft fv viaPtr hg
     simp only [getField, hc, hd, hi, hname] at hg
@@ -156,18 +156,18 @@ theorem field_typed : ∀ (fs : List GoField) (vals : List GoVal) (key : String)
 
 /-! ### maps and slices -/
 
-theorem entries_typed (E : GoType) (k : String) : ∀ (m : List (String × GoVal)),
-    GoVal.entriesHaveType E m = true →
-    (∀ ev, alook k m = some ev → GoVal.hasType E ev = true) ∧
-    (∀ nv, GoVal.hasType E nv = true → GoVal.entriesHaveType E (replaceFirst k nv m) = true ∧
-      GoVal.entriesHaveType E (insertSorted k nv m) = true) ∧
-    GoVal.entriesHaveType E (eraseKey k m) = true
+theorem entries_typed (ub : Int) (E : GoType) (k : String) : ∀ (m : List (String × GoVal)),
+    GoVal.entriesHaveTypeB ub E m = true →
+    (∀ ev, alook k m = some ev → GoVal.hasTypeB ub E ev = true) ∧
+    (∀ nv, GoVal.hasTypeB ub E nv = true → GoVal.entriesHaveTypeB ub E (replaceFirst k nv m) = true ∧
+      GoVal.entriesHaveTypeB ub E (insertSorted k nv m) = true) ∧
+    GoVal.entriesHaveTypeB ub E (eraseKey k m) = true
   | [], _ => by
-    refine ⟨fun ev h => by simp [alook] at h, fun nv hnv => ?_, by simp [eraseKey, GoVal.entriesHaveType]⟩
-    simp [replaceFirst, insertSorted, GoVal.entriesHaveType, hnv]
+    refine ⟨fun ev h => by simp [alook] at h, fun nv hnv => ?_, by simp [eraseKey, GoVal.entriesHaveTypeB]⟩
+    simp [replaceFirst, insertSorted, GoVal.entriesHaveTypeB, hnv]
   | (k', v) :: rest, h => by
-    simp only [GoVal.entriesHaveType, Bool.and_eq_true] at h
-    obtain ⟨ih1, ih2, ih3⟩ := entries_typed E k rest h.2
+    simp only [GoVal.entriesHaveTypeB, Bool.and_eq_true] at h
+    obtain ⟨ih1, ih2, ih3⟩ := entries_typed ub E k rest h.2
     refine ⟨?_, fun nv hnv => ⟨?_, ?_⟩, ?_⟩
     · intro ev hev
       simp only [alook] at hev
@@ -176,48 +176,48 @@ theorem entries_typed (E : GoType) (k : String) : ∀ (m : List (String × GoVal
       · exact ih1 ev hev
     · simp only [replaceFirst]
       split
-      · simp [GoVal.entriesHaveType, hnv, h.2]
-      · simp [GoVal.entriesHaveType, h.1, (ih2 nv hnv).1]
+      · simp [GoVal.entriesHaveTypeB, hnv, h.2]
+      · simp [GoVal.entriesHaveTypeB, h.1, (ih2 nv hnv).1]
     · simp only [insertSorted]
       split
-      · simp [GoVal.entriesHaveType, hnv, h.1, h.2]
+      · simp [GoVal.entriesHaveTypeB, hnv, h.1, h.2]
       · split
-        · simp [GoVal.entriesHaveType, hnv, h.2]
-        · simp [GoVal.entriesHaveType, h.1, (ih2 nv hnv).2]
+        · simp [GoVal.entriesHaveTypeB, hnv, h.2]
+        · simp [GoVal.entriesHaveTypeB, h.1, (ih2 nv hnv).2]
     · simp only [eraseKey]
       split
       · exact ih3
-      · simp [GoVal.entriesHaveType, h.1, ih3]
+      · simp [GoVal.entriesHaveTypeB, h.1, ih3]
 
-theorem list_typed (E : GoType) : ∀ (l : List GoVal) (i : Nat), GoVal.allHaveType E l = true →
-    (∀ ev, l[i]? = some ev → GoVal.hasType E ev = true) ∧
-    (∀ nv, GoVal.hasType E nv = true → GoVal.allHaveType E (l.set i nv) = true)
-  | [], i, _ => ⟨fun ev h => by simp at h, fun nv _ => by simp [GoVal.allHaveType]⟩
+theorem list_typed (ub : Int) (E : GoType) : ∀ (l : List GoVal) (i : Nat), GoVal.allHaveTypeB ub E l = true →
+    (∀ ev, l[i]? = some ev → GoVal.hasTypeB ub E ev = true) ∧
+    (∀ nv, GoVal.hasTypeB ub E nv = true → GoVal.allHaveTypeB ub E (l.set i nv) = true)
+  | [], i, _ => ⟨fun ev h => by simp at h, fun nv _ => by simp [GoVal.allHaveTypeB]⟩
   | v :: rest, i, h => by
-    simp only [GoVal.allHaveType, Bool.and_eq_true] at h
+    simp only [GoVal.allHaveTypeB, Bool.and_eq_true] at h
     cases i with
     | zero =>
-      refine ⟨fun ev hev => ?_, fun nv hnv => by simp [GoVal.allHaveType, hnv, h.2]⟩
+      refine ⟨fun ev hev => ?_, fun nv hnv => by simp [GoVal.allHaveTypeB, hnv, h.2]⟩
       simp only [List.getElem?_cons_zero, Option.some.injEq] at hev
       subst hev; exact h.1
     | succ j =>
-      obtain ⟨ih1, ih2⟩ := list_typed E rest j h.2
+      obtain ⟨ih1, ih2⟩ := list_typed ub E rest j h.2
       refine ⟨fun ev hev => ih1 ev (by simpa using hev), fun nv hnv => ?_⟩
-      simp [GoVal.allHaveType, h.1, ih2 nv hnv]
+      simp [GoVal.allHaveTypeB, h.1, ih2 nv hnv]
 
 /-! ### steps, wrappers, containers, paths -/
 
-theorem stepChild_typed (s : Step) (t' : GoType) (v' : GoVal) (addr' : Bool) (c : Child)
-    (hc : stepChild s t' v' addr' = some c) (ht : GoVal.hasType t' v' = true) :
-    GoVal.hasType c.type c.val = true ∧
-    ∀ cv', GoVal.hasType c.type cv' = true → GoVal.hasType t' (c.put cv') = true := by
+theorem stepChild_typed (ub : Int) (s : Step) (t' : GoType) (v' : GoVal) (addr' : Bool) (c : Child)
+    (hc : stepChild s t' v' addr' = some c) (ht : GoVal.hasTypeB ub t' v' = true) :
+    GoVal.hasTypeB ub c.type c.val = true ∧
+    ∀ cv', GoVal.hasTypeB ub c.type cv' = true → GoVal.hasTypeB ub t' (c.put cv') = true := by
   induction s, t', v', addr' using stepChild.fun_cases with
   | case1 k fs vals addr o t v viaPtr hg hvis => simp [stepChild, hg, hvis] at hc
   | case2 k fs vals addr o t v viaPtr hg hvis =>
     simp only [stepChild, hg, if_neg hvis, Option.some.injEq] at hc
     subst hc
-    obtain ⟨h1, h2⟩ := field_typed fs vals k (by simpa [GoVal.hasType] using ht) o t v viaPtr hg
-    exact ⟨h1, fun cv' hcv => by simpa [GoVal.hasType] using h2 cv' hcv⟩
+    obtain ⟨h1, h2⟩ := field_typed ub fs vals k (by simpa [GoVal.hasTypeB] using ht) o t v viaPtr hg
+    exact ⟨h1, fun cv' hcv => by simpa [GoVal.hasTypeB] using h2 cv' hcv⟩
   | case3 k fs vals addr hn =>
     unfold stepChild at hc
     split at hc
@@ -226,54 +226,54 @@ theorem stepChild_typed (s : Step) (t' : GoType) (v' : GoVal) (addr' : Bool) (c 
   | case4 k E m x ev hl =>
     simp only [stepChild, hl, Option.some.injEq] at hc
     subst hc
-    obtain ⟨h1, h2, _⟩ := entries_typed E k m (by simpa [GoVal.hasType] using ht)
+    obtain ⟨h1, h2, _⟩ := entries_typed ub E k m (by simpa [GoVal.hasTypeB] using ht)
     rw [goLookup_eq_alook] at hl
-    exact ⟨h1 ev hl, fun cv' hcv => by simpa [GoVal.hasType] using (h2 cv' hcv).1⟩
+    exact ⟨h1 ev hl, fun cv' hcv => by simpa [GoVal.hasTypeB] using (h2 cv' hcv).1⟩
   | case5 k E m x hl => simp [stepChild, hl] at hc
   | case6 i E l x ev hl =>
     simp only [stepChild, hl, Option.some.injEq] at hc
     subst hc
-    obtain ⟨h1, h2⟩ := list_typed E l i (by simpa [GoVal.hasType] using ht)
-    exact ⟨h1 ev hl, fun cv' hcv => by simpa [GoVal.hasType] using h2 cv' hcv⟩
+    obtain ⟨h1, h2⟩ := list_typed ub E l i (by simpa [GoVal.hasTypeB] using ht)
+    exact ⟨h1 ev hl, fun cv' hcv => by simpa [GoVal.hasTypeB] using h2 cv' hcv⟩
   | case7 i E l x hl => simp [stepChild, hl] at hc
   | case8 s t v a h1 h2 h3 =>
     unfold stepChild at hc
     split at hc <;> first | (exfalso; simp_all; done) | cases hc
 
-theorem derefOf_typed : ∀ (t : GoType) (v : GoVal) (addr : Bool), GoVal.hasType t v = true →
-    GoVal.hasType (derefOf t v addr).1 (derefOf t v addr).2.1 = true ∧
-    ∀ inner, GoVal.hasType (derefOf t v addr).1 inner = true → GoVal.hasType t (rewrap t v inner) = true := by
+theorem derefOf_typed (ub : Int) : ∀ (t : GoType) (v : GoVal) (addr : Bool), GoVal.hasTypeB ub t v = true →
+    GoVal.hasTypeB ub (derefOf t v addr).1 (derefOf t v addr).2.1 = true ∧
+    ∀ inner, GoVal.hasTypeB ub (derefOf t v addr).1 inner = true → GoVal.hasTypeB ub t (rewrap t v inner) = true := by
   intro t v addr
   induction t, v, addr using derefOf.induct with
   | case1 t v x ih =>
     intro ht
     have e1 : derefOf (.ptr t) (.ptr v) x = derefOf t v true := by simp [derefOf]
     rw [e1]
-    obtain ⟨h1, h2⟩ := ih (by simpa [GoVal.hasType] using ht)
+    obtain ⟨h1, h2⟩ := ih (by simpa [GoVal.hasTypeB] using ht)
     refine ⟨h1, fun inner hi => ?_⟩
     have e2 : rewrap (.ptr t) (.ptr v) inner = .ptr (rewrap t v inner) := by simp [rewrap]
-    rw [e2]; simpa [GoVal.hasType] using h2 inner hi
+    rw [e2]; simpa [GoVal.hasTypeB] using h2 inner hi
   | case2 t v x ih =>
     intro ht
     have e1 : derefOf .iface (.iface t v) x = derefOf t v false := by simp [derefOf]
     rw [e1]
-    obtain ⟨h1, h2⟩ := ih (by simpa [GoVal.hasType] using ht)
+    obtain ⟨h1, h2⟩ := ih (by simpa [GoVal.hasTypeB] using ht)
     refine ⟨h1, fun inner hi => ?_⟩
     have e2 : rewrap .iface (.iface t v) inner = .iface t (rewrap t v inner) := by simp [rewrap]
-    rw [e2]; simpa [GoVal.hasType] using h2 inner hi
+    rw [e2]; simpa [GoVal.hasTypeB] using h2 inner hi
   | case3 t v addr h1 h2 =>
     intro ht
     rw [derefOf_other t v addr h1 h2]
     refine ⟨ht, fun inner hi => ?_⟩
     rw [rewrap_other t v inner h1 h2]; exact hi
 
-theorem localOp_typed (key : String) (op : MapOp) (tgt : Target) (cv' : GoVal)
-    (h : localOp key op tgt = .ok cv') (ht : GoVal.hasType tgt.type tgt.val = true) :
-    GoVal.hasType tgt.type cv' = true := by
+theorem localOp_typed (ub : Int) (hub : 0 < ub) (key : String) (op : MapOp) (tgt : Target) (cv' : GoVal)
+    (h : localOp key op tgt = .ok cv') (ht : GoVal.hasTypeB ub tgt.type tgt.val = true) :
+    GoVal.hasTypeB ub tgt.type cv' = true := by
   cases tgt with
   | struct fs vals settable =>
     simp only [Target.type, Target.val] at ht ⊢
-    have htf : GoVal.fieldsHaveType fs vals = true := by simpa [GoVal.hasType] using ht
+    have htf : GoVal.fieldsHaveTypeB ub fs vals = true := by simpa [GoVal.hasTypeB] using ht
     cases op with
     | set val =>
       simp only [localOp, structOp] at h
@@ -287,7 +287,7 @@ theorem localOp_typed (key : String) (op : MapOp) (tgt : Target) (cv' : GoVal)
           split at h
           · simp only [SetOutcome.ok.injEq] at h
             subst h
-            simpa [GoVal.hasType] using (field_typed fs vals key htf o ft fv viaPtr hg).2 nv (storeAs_hasType ft val nv hst)
+            simpa [GoVal.hasTypeB] using (field_typed ub fs vals key htf o ft fv viaPtr hg).2 nv (storeAs_hasType ub hub ft val nv hst)
           · cases h
     | del =>
       simp only [localOp, structOp] at h
@@ -300,12 +300,12 @@ theorem localOp_typed (key : String) (op : MapOp) (tgt : Target) (cv' : GoVal)
         · split at h
           · simp only [SetOutcome.ok.injEq] at h
             subst h
-            simpa [GoVal.hasType] using (field_typed fs vals key htf o ft fv viaPtr hg).2 _ (zeroOf_hasType_all ft)
+            simpa [GoVal.hasTypeB] using (field_typed ub fs vals key htf o ft fv viaPtr hg).2 _ (zeroOf_hasType_all ub hub ft)
           · cases h
         · cases h
   | goMap E m =>
     simp only [Target.type, Target.val] at ht ⊢
-    obtain ⟨_, h2, h3⟩ := entries_typed E key m (by simpa [GoVal.hasType] using ht)
+    obtain ⟨_, h2, h3⟩ := entries_typed ub E key m (by simpa [GoVal.hasTypeB] using ht)
     cases op with
     | set val =>
       simp only [localOp, mapOp] at h
@@ -314,17 +314,17 @@ theorem localOp_typed (key : String) (op : MapOp) (tgt : Target) (cv' : GoVal)
       · rename_i nv hst
         simp only [SetOutcome.ok.injEq] at h
         subst h
-        simpa [GoVal.hasType] using (h2 nv (storeAs_hasType E val nv hst)).2
+        simpa [GoVal.hasTypeB] using (h2 nv (storeAs_hasType ub hub E val nv hst)).2
     | del =>
       simp only [localOp, mapOp, SetOutcome.ok.injEq] at h
       subst h
-      simpa [GoVal.hasType] using h3
+      simpa [GoVal.hasTypeB] using h3
 
-theorem modifyAt_typed (key : String) (op : MapOp) : ∀ (path : List Step) (t : GoType) (v : GoVal)
+theorem modifyAt_typed (ub : Int) (hub : 0 < ub) (key : String) (op : MapOp) : ∀ (path : List Step) (t : GoType) (v : GoVal)
     (addr pm : Bool) (out : GoVal), modifyAt (localOp key op) path t v addr pm = .ok out →
-    GoVal.hasType t v = true → GoVal.hasType t out = true
+    GoVal.hasTypeB ub t v = true → GoVal.hasTypeB ub t out = true
   | [], t, v, addr, pm, out, h, ht => by
-    have hd := derefOf_typed t v addr ht
+    have hd := derefOf_typed ub t v addr ht
     simp only [modifyAt] at h
     generalize derefOf t v addr = d at h hd
     obtain ⟨t', v', addr'⟩ := d
@@ -338,9 +338,9 @@ theorem modifyAt_typed (key : String) (op : MapOp) : ∀ (path : List Step) (t :
       subst hout
       apply hd.2
       rw [← ht1]
-      exact localOp_typed key op tgt cv' hf (by rw [ht1, ht2]; exact hd.1)
+      exact localOp_typed ub hub key op tgt cv' hf (by rw [ht1, ht2]; exact hd.1)
   | s :: rest, t, v, addr, pm, out, h, ht => by
-    have hd := derefOf_typed t v addr ht
+    have hd := derefOf_typed ub t v addr ht
     simp only [modifyAt] at h
     generalize derefOf t v addr = d at h hd
     obtain ⟨t', v', addr'⟩ := d
@@ -350,8 +350,8 @@ theorem modifyAt_typed (key : String) (op : MapOp) : ∀ (path : List Step) (t :
     | some c =>
       simp only [hc] at h
       obtain ⟨out1, h1, hout⟩ := mapRoot_ok h
-      obtain ⟨hc1, hc2⟩ := stepChild_typed s t' v' addr' c hc hd.1
+      obtain ⟨hc1, hc2⟩ := stepChild_typed ub s t' v' addr' c hc hd.1
       subst hout
-      exact hd.2 _ (hc2 out1 (modifyAt_typed key op rest c.type c.val c.addr c.pm out1 h1 hc1))
+      exact hd.2 _ (hc2 out1 (modifyAt_typed ub hub key op rest c.type c.val c.addr c.pm out1 h1 hc1))
 
 end SMD
